@@ -273,16 +273,20 @@ class PragmaAttacher(Visitor):
                 i = self.visit(i, **kwargs)
                 if pragmas:
                     if isinstance(i, self.node_type):
-                        # Found a node of given type: attach pragmas
-                        i._update(pragma=as_tuple(pragmas))
+                        # Found a node of given type: attach pragmas, in front of
+                        # any pragmas that are attached to the node already
+                        i._update(pragma=as_tuple(pragmas) + as_tuple(getattr(i, 'pragma', None)))
                     elif (
                           self.attach_pragma_post and updated and
                           isinstance(updated[-1], self.node_type) and
                           hasattr(updated[-1], 'pragma_post')
                     ):
                         # Encountered a different node but have some pragmas: attach to last
-                        # node as pragma_post if type matches
-                        updated[-1]._update(pragma_post=as_tuple(pragmas))
+                        # node as pragma_post if type matches, after any pragma_post
+                        # that is attached to that node already
+                        updated[-1]._update(
+                            pragma_post=as_tuple(getattr(updated[-1], 'pragma_post', None)) + as_tuple(pragmas)
+                        )
                     else:
                         # Not attaching pragmas anywhere: re-insert into list
                         updated += pragmas
@@ -291,7 +295,9 @@ class PragmaAttacher(Visitor):
         if self.attach_pragma_post and pragmas:
             # Take care of leftover pragmas
             if updated and isinstance(updated[-1], self.node_type):
-                updated[-1]._update(pragma_post=as_tuple(pragmas))
+                updated[-1]._update(
+                    pragma_post=as_tuple(getattr(updated[-1], 'pragma_post', None)) + as_tuple(pragmas)
+                )
                 pragmas = []
         return as_tuple(updated + pragmas)
 
